@@ -211,6 +211,27 @@ def run(ctx: Ctx) -> int:
         if o["fin"] == "escaped" or c20 != "ok" or c21 != "ok":
             ctx.violation({"clause": "C26_InterventionContained", "svc": o["svc"], "raises": o["raises"], "why": "escaped" if o["fin"] == "escaped" else (c20 if c20 != "ok" else c21)},
                           f"C26_InterventionContained: {o['svc']} handler raising {o['raises']} (script {[s['k'] for s in o['script']]}): responses {[(hex(r['st'])) for r in o['rsp']]}, end={o['fin']}, exception={o['exc']}", {"svc": o["svc"], "script": o["script"]})
+    # a generator handler that raises while the peer's A-RELEASE-RQ is pending (Release.tla arrival points inside the result loop)
+    from release_lab import run_case
+    robs = []
+    for svc in ("find", "get"):
+        # (a C-GET SCP stops asking its handler after the announced number of sub-operations: code after the last yield never runs)
+        for k in ((1, 2, 3) if svc == "find" else (1, 2)):
+            o = run_case({"svc": svc, "n": 2, "pos": "check", "k": k, "tmo": True, "raises": True})
+            o["id"] = len(robs) + 1
+            robs.append(o)
+    keys = ("id", "svc", "n", "pos", "k", "reached", "sent", "queued", "rp", "peer_saw", "acc_released", "acc_aborted", "acc_alive", "raises", "final_status")
+    rv = validate_traces(ctx, "Trace_Release", [{k: o.get(k, False) for k in keys} for o in robs], name="raise_release")
+    for o in robs:
+        v = rv[o["id"]][1]
+        ctx.traces += 1
+        ctx.case(("intervention", "release-pending", o["svc"], o["k"]), nontrivial=True)
+        if v == "UNREACHED":
+            ctx.drifted(f"UNREACHED: raising {o['svc']} handler at check[{o['k']}]: {o.get('peer_log')}")
+        elif v != "ok":
+            ctx.violation({"clause": v, "svc": o["svc"].upper(), "raises": "RuntimeError", "why": "release-pending"},
+                          f"{v}: {o['svc']} handler raising at result {o['k']} while the peer's A-RELEASE-RQ is pending: final status seen by the peer "
+                          f"{o['final_status']:#06x} (documented: 0xC311 / 0xC411); peer log {o.get('peer_log')}", {"svc": o["svc"], "k": o["k"]})
     for n in negotiation_interventions(ctx):
         ctx.traces += 1
         ctx.case(("intervention", n["case"]), nontrivial=True)
